@@ -1888,6 +1888,7 @@ rc::Gen<stackcase_t> gen_stack()
 }
 } // namespace
 
+#ifndef VERIF_NO_MAIN
 int main(int argc, char** argv)
 {
     const std::string suffix = C16_SUFFIX;
@@ -1906,3 +1907,4 @@ int main(int argc, char** argv)
     suite.add<small_t>("sweep" + suffix, gen_sweep, check_small, 1e-9);
     return suite.main(argc, argv);
 }
+#endif
